@@ -182,6 +182,27 @@ def runFile (opts : Opts) (samples bamSamples : List String) (chroms : List Chro
   else if opts.ignoreRG && decide (samples.length > 1) then .error .needSampleOption
   else chromLoop opts samples bamSamples chroms
 
+/-! ## the reader's pairing variant ↔ restricted genotype
+
+`run_haplotagphase` passes `variant_table.variants` and `genotypes_of(sample)` as two parallel lists
+(`restricted_genotypes=genotypes`); `ReadSetReader` indexes both with the SAME index into the unfiltered lists
+(`detect_alleles_by_alignment`: `variants[index]`, `restricted_genotypes[index]`) and `realign` returns "no allele" for a
+record with a symbolic ALT allele (`<DEL>` …), i.e. the test is applied to the PAIR. -/
+
+structure TabVar where
+  pos : Nat
+  symbolic : Bool                 -- some ALT allele starts with `<`
+deriving Repr, DecidableEq
+
+/-- the (variant, restricted genotype) pairs that reach re-alignment -/
+def realignPairs (variants : List TabVar) (genotypes : List (List Nat)) : List (TabVar × List Nat) :=
+  (variants.zip genotypes).filter fun p => !p.1.symbolic
+
+/-- NOT the code — the yard-stick for seed C17-h: the symbolic records are dropped from the variant list up front,
+the genotype list is left as it is, and the two are paired afterwards -/
+def realignPairsShifted (variants : List TabVar) (genotypes : List (List Nat)) : List (TabVar × List Nat) :=
+  (variants.filter fun v => !v.symbolic).zip genotypes
+
 /-! ## composition with `haplotag` -/
 
 /-- the variants `haplotag` types a read at: the phased heterozygous calls of `V` (`get_variant_information`) -/
